@@ -52,6 +52,14 @@ def run(repo, rep):
 
     rep.rule('C14.J4', 'a peer\'s final PDU (A-ABORT, A-ASSOCIATE-RJ, A-RELEASE-RP) that is already buffered is delivered before a '
              'transport close is turned into a synthetic provider abort: the reported source and reason are the peer\'s', 1)
+    rep.rule('C14.J5', 'the cells of the state table through which a rejection, an abort or a release is carried out or reported -- '
+             'events Evt4, Evt8, Evt11-Evt17 in every state, and every event in the release states Sta7-Sta12 -- have the '
+             'effects and the next state of PS3.8 Table 9-10 (the C04 evaluation restricted to these cells): a release that '
+             'is answered in the wrong state ends as an abort', 150)
+    from ..fsm_model import FsmModel as _Fsm
+    from .c04 import check_cells
+    check_cells(_Fsm(repo), rep, rule_eff='C14.J5', rule_next='C14.J5',
+                only=lambda e, s: e in (4, 8, 11, 12, 13, 14, 15, 16, 17) or 7 <= s <= 12)
     from ..provider_model import ProviderModel
     from ..fsm_model import FsmModel
     from .c03 import drain_order_problems
